@@ -3,6 +3,7 @@
 HARNESSES = {
     'mc_hash': dict(src=['mc_hash.c'], flavour='asan'),
     'mc_logmath': dict(src=['mc_logmath.c'], flavour='asan'),
+    'mc_parse': dict(src=['mc_parse.c'], flavour='asan'),
     'mc_chunk': dict(src=['mc_chunk.c'], flavour='asan', ldflags=['-Wl,--wrap=acmod_score']),
     'mc_session': dict(src=['mc_session.c'], flavour='asan'),
     'mc_decode': dict(src=['mc_decode.c'], flavour='asan', ldflags=['-Wl,--wrap=acmod_score']),
@@ -261,6 +262,25 @@ def _c07_runs(tier):
     return r
 
 
+def _c10_runs(tier):
+    r = []
+    lens = dict(jsgf=3, fsg=3, dict=3, fdict=3, json=3, cfgset=3, align=3, addword=3, cmn=3, fsgdec=3, jsgfdec=3)
+    shards = dict(jsgf=4, fsg=2, dict=2, fdict=2)
+    if tier == 'thorough':
+        lens = dict(jsgf=4, fsg=4, dict=4, fdict=4, json=4, cfgset=4, align=4, addword=4, cmn=4, fsgdec=4, jsgfdec=4)
+        shards = dict(jsgf=16, fsg=8, dict=8, fdict=8, json=4, fsgdec=4, jsgfdec=4, addword=2, align=2, cfgset=4, cmn=2)
+    for f, l in lens.items():
+        n = shards.get(f, 1)
+        for i in range(n):
+            r.append(dict(h='mc_parse', label='parse-%s-tokens-len%d-shard%d' % (f, l, i), args=['--format', f, '--space', 'tokens', '--len', str(l), '--shard', '%d/%d' % (i, n)]))
+        m = 3 if f in ('jsgf', 'dict') else 1
+        for i in range(m):
+            r.append(dict(h='mc_parse', label='parse-%s-mutate-shard%d' % (f, i), args=['--format', f, '--space', 'mutate', '--shard', '%d/%d' % (i, m)]))
+    for f in ('jsgf', 'json'):
+        r.append(dict(h='mc_parse', label='parse-%s-nest' % f, args=['--format', f, '--space', 'nest']))
+    return r
+
+
 SES_ASSUME = ['operation alphabet of 42 public-API calls (see harness/mc_session.c); audio = excerpts of tests/data/goforward.raw, zeros, and no samples; '
               'REAL front end and REAL acoustic scorer (no injected scores)',
               'grammar loading, dictionary additions and reinit are only issued between utterances (the documented protocol); every other call is issued in every state',
@@ -369,6 +389,22 @@ CHECKS = {
              'dictionary, every alternate chain is walked (acyclic, shared base, complete), rejected additions must change nothing, accepted '
              'words must be usable at once in alignment text and JSGF and report their base spelling',
         assumptions=SES_ASSUME + ['growth past the 4096 preallocated dictionary entries is not explored'] + TRUST,
+    ),
+    'C10': dict(
+        title='untrusted grammar, dictionary, configuration and text inputs are handled safely',
+        level='exploration',
+        runs={'quick': _c10_runs('quick'), 'thorough': _c10_runs('thorough')},
+        budget_s={'quick': 600, 'thorough': 5400},
+        coverage=ex_cov,
+        rule='11 entry points (jsgf_parse_string+build, fsg_model_read_s3file, dict_init_s3file main/filler, config_parse_json, config_set_str, '
+             'decoder_set_align_text, decoder_add_word, decoder_set_cmn, decoder_init_grammar_s3file, decoder_set_jsgf_string). Space A: every token '
+             'sequence up to length 3 (thorough 4) over a 13-31 token alphabet per format (keywords, brackets, numbers incl. 2147483648/1e40/-1, a '
+             '70000-byte token, a 0xff byte, comment openers) x {bare, after 1-2 valid prefixes} x {space-joined, newline-terminated, concatenated}; '
+             'Space B: for each valid seed file every truncation length, every single-byte replacement from a 12-byte set at every offset, every '
+             'token deletion, every line duplication; Space C: nesting depths up to 5000. File-like inputs are exact-size heap blocks without NUL. '
+             'Oracle: process outcome (sanitizer, assertion, exit, 20 s hang), the returned object is used and freed, allocator back to its level',
+        assumptions=['non-trivial = the library returned an object rather than a failure value',
+                     'for JSGF inputs compiling to more than 300 states only the raw FSG is built (the null-transition closure is cubic)'] + TRUST,
     ),
     'C11': dict(
         title='the word lattice is a well-formed, time-consistent graph of grammar paths',
@@ -520,6 +556,12 @@ CHECKS = {
 PENDING_REASON = {}
 
 MANIFEST_TEXT = {
+    'C10': dict(
+        text='Bounded exhaustive enumeration of inputs per entry point: all token sequences up to a length over sharp per-format alphabets and '
+             'ALL single mutations (truncation, byte replacement, token deletion, line duplication) of valid seeds, executed under ASan/UBSan '
+             'on exact-size unterminated buffers with exit/assert/hang as outcomes and allocator accounting per case.',
+        design_ref='DESIGN.md section 2, H10', technique='bounded exhaustive enumeration of token sequences and complete single-mutation neighbourhoods, sanitizer oracle',
+        note='token alphabets and seeds listed in harness/mc_parse.c; two-byte and longer mutations not explored'),
     'C07': dict(
         text='Iterative deviation bounding applied to the call pattern: every plan with up to 3 departures from the one-call reference '
              '(cuts at all threshold offsets, buffering, float entry, zero-length calls, partial queries) plus all subsets of a 10-point cut '
